@@ -71,6 +71,8 @@ def run(ctx):
     nc.merge_tie(ctx, [1, 1, 2, 3, 4, 10], 1500 if ctx.quick else 20000)
     # T3: every rank's trace of single calls with fixed-size items co-simulated against the extracted per-rank programs
     nc.cosim_tie(ctx, [1], 90 if ctx.quick else 1200)
+    # T3: sc_notify_payloadv with pcx / rsx (variable slices, output offsets) against the extracted program censusv_core
+    nc.cosimv_tie(ctx, 30 if ctx.quick else 400)
     ctx.cov["rule"] = ("sc_notify_payload / sc_notify_payloadv (+ sc_notify_ext, sc_notify_nary) on the simulated MPI: all 9 algorithm types, item sizes 1..17,24,31,40 (most not "
                        "multiples of sizeof(int)), eager threshold set below/at/above the item size, variable slices of 0..7 items, sorted 0/1, in-place and separate "
                        "outputs, 8 scheduler adversaries, some back-to-back calls; non-trivial = P > 1 and at least one receiver")
